@@ -79,9 +79,140 @@ _C05 = [
       "query_overlap_of_other_tree(self.root, self.nodes, self.aabbs, other.root, other.nodes, self.aabbs)", ["R-UNIQUE", "roles"]),
 ]
 
-_ALL = _C05
+EP = "distance3d/epa.py"
+CO = "distance3d/colliders.py"
+JO = "distance3d/gjk/_gjk_jolt.py"
+MP = "distance3d/mpr.py"
+MK = "distance3d/minkowski.py"
+HP = "distance3d/hydroelastic_contact/_halfplanes.py"
+TI = "distance3d/hydroelastic_contact/_tetrahedron_intersection.py"
+FO = "distance3d/hydroelastic_contact/_forces.py"
+IF = "distance3d/hydroelastic_contact/_interface.py"
+RB = "distance3d/hydroelastic_contact/_rigid_body.py"
+NE = "distance3d/gjk/_gjk_nesterov_accelerated.py"
+NP_ = "distance3d/gjk/_gjk_nesterov_accelerated_primitives.py"
+OR = "distance3d/gjk/_gjk_original.py"
+LC = "distance3d/gjk/_gjk_libccd.py"
+ME = "distance3d/mesh.py"
 
-FLOORS = {"C05": 40}
+_C07 = [
+    M(["C07"], "epa-alias-view", EP, "Polytope.fix_ccw_normal_direction", "temp = np.copy(self.faces[face_idx, 0])", "temp = self.faces[face_idx, 0]", ["R-ALIAS", "fix_ccw"]),
+    M(["C07"], "epa-alias-view-winding", EP, "Polytope.fix_ccw_normal_direction", "temp = np.copy(self.faces[face_idx, 0])", "temp = self.faces[face_idx, 0]", ["R-WINDING", "real swap"]),
+    M(["C07"], "epa-initial-no-repair", EP, "Polytope._initialize_from_simplex", "self.fix_ccw_normal_direction(i)", "", ["R-WINDING", "_initialize_from_simplex", "repair"]),
+    M(["C07"], "epa-extend-no-repair", EP, "Polytope.extend_with_point", "self.fix_ccw_normal_direction(self.n_faces)", "", ["R-WINDING", "extend_with_point", "repair"]),
+    M(["C07"], "epa-extend-no-normal", EP, "Polytope.extend_with_point", "self.compute_normal(self.n_faces)", "", ["R-WINDING", "extend_with_point", "normal"]),
+    M(["C07"], "epa-repair-cond-flipped", EP, "Polytope.fix_ccw_normal_direction", "np.dot(self.faces[face_idx, 0], self.faces[face_idx, 3]) + bias < 0.0",
+      "np.dot(self.faces[face_idx, 0], self.faces[face_idx, 3]) + bias > 0.0", ["R-WINDING", "flip iff"]),
+    M(["C07"], "epa-repair-no-negate", EP, "Polytope.fix_ccw_normal_direction", "self.faces[face_idx, 3] = -self.faces[face_idx, 3]", "self.faces[face_idx, 3] = self.faces[face_idx, 3]", ["R-WINDING", "normal negated"]),
+    M(["C07"], "epa-normal-cw", EP, "Polytope.compute_normal", "self.faces[face_idx, 2] - self.faces[face_idx, 0]", "self.faces[face_idx, 0] - self.faces[face_idx, 2]", ["R-WINDING", "unit("]),
+    M(["C07"], "epa-mink-same-dir", EP, "epa", "collider2.support_function(-search_direction)", "collider2.support_function(search_direction)", ["R-MINK", "negated"]),
+    M(["C07"], "epa-mink-swapped-diff", EP, "epa", "new_point = new_vertex1 - new_vertex2", "new_point = new_vertex2 - new_vertex1", ["R-MINK", "difference"]),
+    M(["C07"], "epa-mtv-vertex", EP, "epa", "mtv = closest_face[3] * np.dot(new_point, search_direction)", "mtv = closest_face[0] * np.dot(new_point, search_direction)", ["R-MTV", "mtv"], nth=0),
+    M(["C07"], "epa-mtv-old-point", EP, "epa", "mtv = closest_face[3] * np.dot(new_point, search_direction)", "mtv = closest_face[3] * np.dot(closest_face[0], search_direction)", ["R-MTV", "mtv"]),
+    M(["C07"], "epa-success-on-fallthrough", EP, "epa", "return (mtv, polytope.get_all_faces(), False)", "return (mtv, polytope.get_all_faces(), True)", ["R-MTV", "no success outside"]),
+    M(["C07"], "epa-convergence-test", EP, "epa", "np.dot(new_point, search_direction) - min_dist < epsilon", "np.dot(new_point, search_direction) + min_dist < epsilon", ["R-MTV", "convergence"]),
+    M(["C07"], "epa-argmax-face", EP, "Polytope.find_face_closest_to_origin", "np.argmin(dists)", "np.argmax(dists)", ["R-MTV", "argmin"]),
+    M(["C07", "C20"], "epa-guard-after-store", EP, "Polytope.extend_with_point",
+      "assert self.n_faces < self.max_faces\nif self.n_faces >= self.max_faces:\n    break\nself.faces[self.n_faces, :2] = loose_edges.loose_edges[i]",
+      "self.faces[self.n_faces, :2] = loose_edges.loose_edges[i]\nassert self.n_faces < self.max_faces\nif self.n_faces >= self.max_faces:\n    break",
+      ["R-GUARDSTORE", "extend_with_point"]),
+    M(["C07", "C20"], "epa-looseedge-guard-late", EP, "LooseEdges.add_edge_to_list",
+      "if self.n_loose_edges >= self.max_loose_edges:\n    return False\nself.loose_edges[self.n_loose_edges] = edge",
+      "self.loose_edges[self.n_loose_edges] = edge\nif self.n_loose_edges >= self.max_loose_edges:\n    return False", ["R-GUARDSTORE", "add_edge_to_list"]),
+    M(["C07", "C19"], "epa-scan-no-advance", EP, "LooseEdges.find_triangles_facing_point_and_store_loose_edges", "i += 1", "i += 0", ["R-LOOP", "find_triangles"]),
+    M(["C07", "C19"], "epa-edge-scan-no-advance", EP, "LooseEdges.add_removed_triangles_edges_to_list", "k += 1", "k += 0", ["R-LOOP", "add_removed"]),
+]
+_C07 = [m for m in _C07 if m.name not in ()]
+
+_C14 = [
+    M(["C14", "C20"], "disk-update-view-c", CO, "Disk.update_pose", "self.c = np.ascontiguousarray(pose[:3, 3])", "self.c = pose[:3, 3]", ["R-EAGER", "Disk.support_function"]),
+    M(["C14", "C20"], "disk-update-view-normal", CO, "Disk.update_pose", "self.normal = np.ascontiguousarray(pose[:3, 2])", "self.normal = pose[:3, 2]", ["R-EAGER", "Disk"]),
+    M(["C14", "C20"], "ellipse-update-view-axes", CO, "Ellipse.update_pose", "self.axes = np.ascontiguousarray(pose[:3, :2].T)", "self.axes = pose[:3, :2].T", ["R-EAGER", "Ellipse.support_function"]),
+    M(["C14", "C20"], "sphere-support-no-contig", CO, "Sphere.support_function", "np.ascontiguousarray(self.c)", "self.c", ["R-EAGER", "Sphere.support_function"]),
+    M(["C14", "C20"], "cylinder-update-rotation-only", CO, "Cylinder.update_pose", "self.cylinder2origin = pose", "self.cylinder2origin = pose.T", ["R-EAGER", "Cylinder"]),
+    M(["C14"], "box-update-no-vertices", CO, "Box.update_pose", "self.vertices = convert_box_to_vertices(pose, self.size)", "", ["R-COHERENCE", "Box", "vertices"]),
+    M(["C14"], "box-update-old-pose", CO, "Box.update_pose", "self.vertices = convert_box_to_vertices(pose, self.size)", "self.vertices = convert_box_to_vertices(self.box2origin, 0.5 * self.size)", ["R-COHERENCE", "Box", "vertices"]),
+    M(["C14"], "mesh-update-no-delegate", CO, "MeshGraph.update_pose", "self._support_function.update_pose(mesh2origin)", "", ["R-COHERENCE", "MeshGraph", "_support_function"]),
+    M(["C14"], "margin-update-no-delegate", CO, "Margin.update_pose", "self.collider.update_pose(pose)", "pass", ["R-COHERENCE"]),
+    M(["C14"], "disk-update-no-normal", CO, "Disk.update_pose", "self.normal = np.ascontiguousarray(pose[:3, 2])", "", ["R-ROUNDTRIP", "Disk", "normal refreshed"]),
+    M(["C14"], "disk-roundtrip-normal-col", CO, "Disk.update_pose", "self.normal = np.ascontiguousarray(pose[:3, 2])", "self.normal = np.ascontiguousarray(pose[:3, 1])", ["R-ROUNDTRIP", "Disk", "normal"]),
+    M(["C14"], "ellipse-roundtrip-no-T", CO, "Ellipse.collider2origin", "ellipse2origin[:3, :2] = self.axes.T", "ellipse2origin[:2, :3] = self.axes", ["R-ROUNDTRIP", "Ellipse", "axes"]),
+    M(["C14"], "sphere-roundtrip-col", CO, "Sphere.collider2origin", "sphere2origin[:3, 3] = self.c", "sphere2origin[3, :3] = self.c", ["R-ROUNDTRIP", "Sphere"]),
+    M(["C14"], "meshsupport-update-noop", ME, "MeshHillClimbingSupportFunction.update_pose", "self.mesh2origin = mesh2origin", "self.mesh2origin = self.mesh2origin", ["R-COHERENCE"]),
+    M(["C14"], "ellipse-update-c-row", CO, "Ellipse.update_pose", "self.c = np.ascontiguousarray(pose[:3, 3])", "self.c = np.ascontiguousarray(pose[3, :3])", ["R-ROUNDTRIP", "Ellipse", "c <-"]),
+]
+
+_C15 = [
+    M(["C15", "C20"], "halfplanes-compact-loop-index", TI, "make_halfplanes", "halfplanes[hp_idx, :2] = p", "halfplanes[i, :2] = p", ["R-COMPACT", "make_halfplanes"]),
+    M(["C15", "C20"], "halfplanes-compact-col3", TI, "make_halfplanes", "halfplanes[hp_idx, 3] = -normals2d[i, 0]", "halfplanes[i, 3] = -normals2d[i, 0]", ["R-COMPACT", "make_halfplanes"]),
+    M(["C15", "C20"], "unique-points-loop-index", TI, "filter_unique_points", "unique_points[n_unique_points] = points[j]", "unique_points[j] = points[j]", ["R-COMPACT", "filter_unique_points"]),
+    M(["C15", "C20"], "intersect-points-loop-index", HP, "intersect_halfplanes", "points[n_intersections] = p", "points[k] = p", ["R-COMPACT", "intersect_halfplanes"]),
+    M(["C15", "C20"], "intersect-assert-late", HP, "intersect_halfplanes",
+      "assert n_intersections < len(points)\npoints[n_intersections] = p", "points[n_intersections] = p\nassert n_intersections < len(points)", ["R-GUARDSTORE", "intersect_halfplanes"]),
+    M(["C15"], "force-not-along-normal", FO, "compute_contact_force", "force_vector = total_force * contact_plane_hnf[:3]", "force_vector = total_force * intersection_com", ["R-FORCEDIR"]),
+    M(["C15"], "force-hnf-slice", FO, "compute_contact_force", "force_vector = total_force * contact_plane_hnf[:3]", "force_vector = total_force * contact_plane_hnf[1:]", ["R-FORCEDIR"]),
+    M(["C15"], "polyguard-two-vertices", TI, "intersect_tetrahedron_pair", "len(contact_polygon) < 3", "len(contact_polygon) < 2", ["R-POLYGUARD", "intersect_tetrahedron_pair"]),
+    M(["C15"], "polyguard-unique-dropped", TI, "compute_contact_polygon", "if len(unique_vertices2d) < 3:\n    return np.empty((0, 3), dtype=np.dtype('float'))", "", ["R-POLYGUARD", "two degenerate"]),
+    M(["C15"], "plane-offset-before-normalise", TI, "contact_plane", "plane_hnf /= norm", "plane_hnf[:3] /= norm", ["R-POLYGUARD", "normalise"]),
+    M(["C15"], "plane-no-zero-test", TI, "contact_plane", "if norm == 0.0:\n    return (plane_hnf, True)", "", ["R-POLYGUARD", "zero test"]),
+]
+
+_C16 = [
+    M(["C16"], "reaction-same-sign", FO, "_transform_wrenches", "np.hstack((-total_force_21, total_torque_12))", "np.hstack((total_force_21, total_torque_12))", ["R-REACTION", "f12 = -f21"]),
+    M(["C16"], "reaction-torque-swapped", FO, "_transform_wrenches", "np.hstack((total_force_21, total_torque_21))", "np.hstack((total_force_21, total_torque_12))", ["R-REACTION", "torque pairing"]),
+    M(["C16"], "reaction-com-body", FO, "accumulate_wrenches", "contact_surface.contact_coms - rigid_body2.com", "contact_surface.contact_coms - rigid_body1.com", ["R-REACTION", "total_torque_12"]),
+    M(["C16"], "reaction-torque-sign", FO, "accumulate_wrenches", "-contact_surface.contact_forces", "contact_surface.contact_forces", ["R-REACTION", "total_torque_12"]),
+    M(["C16"], "reaction-return-swapped", FO, "_transform_wrenches", "return (wrench12_in_world, wrench21_in_world)", "return (wrench21_in_world, wrench12_in_world)", ["R-REACTION", "unpack order"]),
+    M(["C16"], "reaction-contact-forces-order", IF, "contact_forces", "return (contact_surface.intersection, wrench12_in_world, wrench21_in_world)",
+      "return (contact_surface.intersection, wrench21_in_world, wrench12_in_world)", ["R-REACTION", "return order"]),
+    M(["C16"], "attr-wrong-name", IF, "find_contact_surface", "rigid_body1.aabb_tree.overlaps_aabb_tree(rigid_body2.aabb_tree)", "rigid_body1.aabbtree_.overlaps_aabb_tree(rigid_body2.aabbtree_)", ["R-ATTR", "aabbtree_"]),
+    M(["C16"], "attr-wrong-name-potentials", IF, "find_contact_surface", "rigid_body2.tetrahedra_potentials", "rigid_body2.tetrahedra_potential", ["R-ATTR", "tetrahedra_potential"]),
+    M(["C16"], "invalidate-no-aabbs", RB, "RigidBody.express_in", "self._aabbs = None", "", ["R-INVALIDATE", "_aabbs"]),
+    M(["C16"], "invalidate-no-com", RB, "RigidBody.express_in", "self._com = None", "", ["R-INVALIDATE", "_com"]),
+    M(["C16"], "invalidate-no-tree", RB, "RigidBody.express_in", "self._aabb_tree = None", "", ["R-INVALIDATE", "_aabb_tree"]),
+    M(["C16"], "same-pred-swapped-bodies", IF, "find_contact_surface", "all_aabbs_overlap(rigid_body1.aabbs, rigid_body2.aabbs)", "all_aabbs_overlap(rigid_body2.aabbs, rigid_body1.aabbs)", ["R-SAMEPREDICATE", "brute-force argument order"]),
+    M(["C16"], "same-pred-tree-swapped", IF, "find_contact_surface", "rigid_body1.aabb_tree.overlaps_aabb_tree(rigid_body2.aabb_tree)", "rigid_body2.aabb_tree.overlaps_aabb_tree(rigid_body1.aabb_tree)", ["R-SAMEPREDICATE", "tree argument order"]),
+    M(["C16"], "same-pred-no-express", IF, "find_contact_surface", "rigid_body1.express_in(rigid_body2.body2origin_)", "", ["R-SAMEPREDICATE", "express_in"]),
+]
+
+_C19 = [
+    M(["C19"], "nesterov-continue-no-flag", NE, "gjk_nesterov_accelerated", "use_nesterov_acceleration = False\nsimplex_len -= 1\ncontinue", "simplex_len -= 1\ncontinue", ["R-LOOP", "gjk_nesterov_accelerated"]),
+    M(["C19"], "nesterov-no-increment", NE, "gjk_nesterov_accelerated", "i += 1", "", ["R-LOOP", "gjk_nesterov_accelerated"]),
+    M(["C19"], "nesterov-prim-no-increment", NP_, "run_gjk_nesterov_accelerated", "i += 1", "", ["R-LOOP", "run_gjk_nesterov_accelerated"]),
+    M(["C19"], "jolt-progress-strict", JO, "_distance_loop", "prev_v_len_sq - v_len_sq <= EPSILON * prev_v_len_sq", "prev_v_len_sq - v_len_sq < EPSILON * prev_v_len_sq", ["R-LOOP", "gjk_distance_jolt"]),
+    M(["C19"], "jolt-no-prev-update", JO, "_distance_loop", "prev_v_len_sq = v_len_sq", "", ["R-LOOP", "gjk_distance_jolt"]),
+    M(["C19"], "jolt-intersection-no-progress-test", JO, "_intersection_loop",
+      "if prev_v_len_sq - v_len_sq <= EPSILON * prev_v_len_sq:\n    return (GjkState.NoIntersection, n_points, prev_v_len_sq)", "", ["R-LOOP", "gjk_intersection_jolt"]),
+    M(["C19"], "mpr-penetration-no-cap", MP, "_find_penetration_info", "iterations > max_iterations", "False", ["R-LOOP", "_find_penetration_info"]),
+    M(["C19"], "mpr-penetration-no-increment", MP, "_find_penetration_info", "iterations += 1", "", ["R-LOOP", "_find_penetration_info"]),
+    M(["C19"], "mpr-discover-no-cap", MP, "_discover_portal", "if it >= max_iterations:\n    portal.n_points = 4\n    break", "", ["R-LOOP", "_discover_portal"]),
+    M(["C19"], "mpr-refine-no-tolerance", MP, "_refine_portal", "_portal_reach_tolerance(portal.v, next_support_point, search_direction, mpr_tolerance)", "False", ["R-LOOP", "_refine_portal"]),
+    M(["C19"], "original-strict-compare", OR, "gjk_distance_original", "new_solution.distance_squared >= solution.distance_squared", "new_solution.distance_squared > solution.distance_squared", ["R-LOOP", "gjk_distance_original"]),
+    M(["C19"], "original-no-solution-update", OR, "gjk_distance_original", "solution = new_solution", "", ["R-LOOP", "gjk_distance_original"]),
+    M(["C19"], "libccd-while-true", LC, "_gjk", "range(max_iterations)", "iter(int, 1)", ["R-LOOP", "_gjk"]),
+    M(["C19"], "hillclimb-nonstrict", ME, "hill_climb_mesh_extreme", "projected_length > PROJECTION_LENGTH_EPSILON", "projected_length >= 0.0", ["R-LOOP", "hill_climb_mesh_extreme"], nth=1),
+    M(["C19"], "hillclimb-no-reset", ME, "hill_climb_mesh_extreme", "converged = True", "", ["R-LOOP", "hill_climb_mesh_extreme"], nth=0),
+    M(["C19", "C07"], "epa-range-unbounded", EP, "epa", "range(max_iter)", "iter(int, 1)", ["epa"]),
+]
+
+_C20 = [
+    M(["C20"], "frozen-global-mutated", "distance3d/geometry.py", "convert_rectangle_to_vertices",
+      "return rectangle_center + (RECTANGLE_COORDS * rectangle_lengths).dot(rectangle_axes)",
+      "BOX_COORDS[0, 0] = -0.5\nreturn rectangle_center + (RECTANGLE_COORDS * rectangle_lengths).dot(rectangle_axes)", ["R-FROZEN", "BOX_COORDS"]),
+    M(["C20"], "frozen-triangles-mutated", FO, "contact_surface_forces", "triangles = []", "triangles = []\nTRIANGLES[:, 0] = 0", ["R-FROZEN", "TRIANGLES"]),
+    M(["C20"], "eager-int-literal", CO, "Sphere.first_vertex", "return self.c + np.array([0, 0, self.radius], dtype=float)",
+      "return support_function_sphere(np.array([0, 0, 1]), np.ascontiguousarray(self.c), self.radius)", ["R-EAGER", "Sphere.first_vertex"]),
+    M(["C20"], "eager-column-arg", CO, "Capsule.first_vertex", "self.capsule2origin[:3, 3] - (self.radius + 0.5 * self.height) * self.capsule2origin[:3, 2]",
+      "support_function_sphere(self.capsule2origin[:3, 2], self.capsule2origin[:3, 3], self.radius)", ["R-EAGER", "Capsule.first_vertex"]),
+    M(["C20"], "eager-transposed-pose", CO, "Cone.support_function", "support_function_cone(search_direction, self.cone2origin, self.radius, self.height)",
+      "support_function_cone(search_direction, self.cone2origin.T, self.radius, self.height)", ["R-EAGER", "Cone.support_function"]),
+    M(["C20"], "eager-ndim", CO, "Ellipsoid.support_function", "support_function_ellipsoid(search_direction, self.ellipsoid2origin, self.radii)",
+      "support_function_ellipsoid(search_direction, self.ellipsoid2origin[0], self.radii)", ["R-EAGER", "Ellipsoid.support_function"]),
+]
+
+_ALL = _C05 + _C07 + _C14 + _C15 + _C16 + _C19 + _C20
+
+FLOORS = {"C05": 40, "C07": 14, "C14": 9, "C15": 8, "C16": 12, "C19": 14, "C20": 10}
 
 
 def all_mutants():
